@@ -306,14 +306,18 @@ func (sim *Sim) runGated(enc codec.Encoder) {
 			}
 		}()
 	}
-	end := time.Now().Add(5 * time.Second)
+	wait1, wait2 := dl(5*time.Second), dl(3*time.Second)
+	if sim.stuck == 1 { // already a finding: do not spend the budget waiting for the rescue
+		wait1, wait2 = 1500*time.Millisecond, 500*time.Millisecond
+	}
+	end := time.Now().Add(wait1)
 	for !sim.harnessThreadsDone() && time.Now().Before(end) {
 		time.Sleep(200 * time.Microsecond)
 	}
-	if !sim.harnessThreadsDone() {
+	if !sim.harnessThreadsDone() && sim.stuck == 0 {
 		sim.inconclusive("harness goroutines still pending 5s after the gates were opened: %s", sim.blockedSummary())
 	}
-	end = time.Now().Add(3 * time.Second)
+	end = time.Now().Add(wait2)
 	for sim.pumpsAlive() && time.Now().Before(end) {
 		time.Sleep(200 * time.Microsecond)
 	}
@@ -416,6 +420,18 @@ func (sim *Sim) runFree(enc codec.Encoder) {
 				return
 			default:
 			}
+			if cfg.LateInput > 0 && i == len(cfg.Input)-cfg.LateInput {
+				// the rest is sent only once the close has begun (the peer keeps talking into a closing connection)
+				t0 := time.Now()
+				for !sim.closeBegan.Load() && time.Since(t0) < 3*time.Second {
+					select {
+					case <-stop:
+						return
+					default:
+					}
+					time.Sleep(50 * time.Microsecond)
+				}
+			}
 			if r.Intn(4) == 0 {
 				time.Sleep(time.Duration(r.Intn(300)) * time.Microsecond)
 			}
@@ -459,11 +475,19 @@ func (sim *Sim) runFree(enc codec.Encoder) {
 	if cfg.CloseAfter == 0 {
 		select {
 		case <-sendersDone:
-		case <-time.After(10 * time.Second):
+		case <-time.After(dl(10 * time.Second)):
 			sim.inconclusive("senders did not return within 10s")
 		}
 	} else {
 		time.Sleep(time.Duration(sim.rng.Intn(400)) * time.Microsecond)
+	}
+	if cfg.WaitInput == 1 {
+		// the peer finishes talking first (including a pause longer than the read time-out)
+		limit := time.Duration(cfg.ReadTimeout+6) * time.Second
+		for t0 := time.Now(); int(atomic.LoadInt32(&sim.inputWritten)) < len(cfg.Input) && time.Since(t0) < limit; {
+			time.Sleep(200 * time.Microsecond)
+		}
+		time.Sleep(2 * time.Millisecond)
 	}
 	var cw sync.WaitGroup
 	for j := range cfg.Closers {
@@ -474,7 +498,7 @@ func (sim *Sim) runFree(enc codec.Encoder) {
 	go func() { cw.Wait(); close(closersDone) }()
 	select {
 	case <-closersDone:
-	case <-time.After(6 * time.Second):
+	case <-time.After(dl(6 * time.Second)):
 		// Close pending: only a goroutine dump showing the modelled stuck state makes this a finding
 		if ev := sim.stuckEvidence(); ev != "" {
 			sim.stuck = 1
@@ -499,19 +523,29 @@ func (sim *Sim) runFree(enc codec.Encoder) {
 				}
 			}()
 		}
+		rescue := dl(6 * time.Second)
+		if sim.stuck == 1 {
+			rescue = 1500 * time.Millisecond
+		}
 		select {
 		case <-closersDone:
-		case <-time.After(6 * time.Second):
-			sim.inconclusive("close still pending after rescue: %s", sim.blockedSummary())
+		case <-time.After(rescue):
+			if sim.stuck == 0 {
+				sim.inconclusive("close still pending after rescue: %s", sim.blockedSummary())
+			}
 		}
 	}
 	select {
 	case <-sendersDone:
-	case <-time.After(5 * time.Second):
+	case <-time.After(dl(5 * time.Second)):
 		sim.inconclusive("senders did not return")
 	}
 	// let the finalizer spawned by a ForceClose finish
-	end := time.Now().Add(5 * time.Second)
+	pw := dl(5 * time.Second)
+	if sim.stuck == 1 {
+		pw = time.Second
+	}
+	end := time.Now().Add(pw)
 	for sim.pumpsAlive() && time.Now().Before(end) {
 		time.Sleep(200 * time.Microsecond)
 	}
@@ -523,7 +557,7 @@ func (sim *Sim) runFree(enc codec.Encoder) {
 			if cfg.InConsumer != 1 {
 				startDrain()
 			}
-			end = time.Now().Add(5 * time.Second)
+			end = time.Now().Add(dl(5 * time.Second))
 			for sim.pumpsAlive() && time.Now().Before(end) {
 				time.Sleep(200 * time.Microsecond)
 			}
@@ -584,7 +618,7 @@ func (sim *Sim) runImmediate() {
 	}()
 	select {
 	case <-done:
-	case <-time.After(8 * time.Second):
+	case <-time.After(dl(8 * time.Second)):
 		if ev := sim.stuckEvidence(); ev != "" {
 			sim.stuck = 1
 			sim.stuckWhat = "stuck: " + ev
@@ -598,7 +632,7 @@ func (sim *Sim) runImmediate() {
 		}()
 		select {
 		case <-done:
-		case <-time.After(5 * time.Second):
+		case <-time.After(dl(5 * time.Second)):
 			return
 		}
 	}
@@ -612,7 +646,7 @@ func (sim *Sim) runImmediate() {
 		sim.closeRes[0] = closeRes
 	}
 	sim.mu.Unlock()
-	end := time.Now().Add(5 * time.Second)
+	end := time.Now().Add(dl(5 * time.Second))
 	for sim.pumpsAlive() && time.Now().Before(end) {
 		time.Sleep(200 * time.Microsecond)
 	}
